@@ -104,6 +104,11 @@ type lfEvent struct {
 	V   *Lin   // the value stored / compared with, as a linear form (nil when not linear)
 	// events of a loop body, generalised over its iterations (Kind prefixed "loop:"):
 	Loop *lfLoopMeta
+	// hash events: which hash object the bytes went into / was summed / reset, and the
+	// position of the call in the entry function that led to it (the event itself may come
+	// from a wrapper or helper interpreted inline)
+	Recv    string
+	RootPos token.Pos
 }
 
 // lfLoopMeta describes the loop an event was generalised over: the symbols
@@ -147,6 +152,7 @@ type lfFrame struct {
 	fn     *ssa.Function
 	env    map[ssa.Value]lfVal
 	parent *lfFrame
+	site   *ssa.Call // the call, in the parent frame, that this frame interprets
 	depth  int
 	loops  []*Loop
 	active []*lfLoopCtx
@@ -213,6 +219,7 @@ type lfEngine struct {
 	arrOrg     map[string]int // local/field array → identity of its slices
 	paramSyms  map[int]Sym    // integer parameters of the entry function → their symbols
 	tracked    map[int]string
+	typeNames  map[string]string // bits mode: objects of these struct types (by type string) get this field-name prefix wherever they are created
 	paramNames map[int]string // parameter index → name under which its fields are tracked
 	onStore    func(st *lfState, kind, name string, val string, pos token.Pos, b *bv)
 	onReturn   func(st *lfState, rets []lfVal)
@@ -461,7 +468,9 @@ func (e *lfEngine) fresh(st *lfState, t types.Type, name string) lfVal {
 	case *types.Array:
 		return vSlice{Len: linConst(u.Len())}
 	case *types.Pointer:
-		return vPtr{Obj: e.id(), Path: ""}
+		obj := e.id()
+		e.nameByType(obj, u.Elem())
+		return vPtr{Obj: obj, Path: ""}
 	case *types.Interface, *types.Signature, *types.Map, *types.Chan:
 		return vNilable{ID: e.id()}
 	case *types.Tuple:
@@ -1408,7 +1417,11 @@ func (e *lfEngine) step(fr *lfFrame, st *lfState, in ssa.Instruction) {
 	case *ssa.DebugRef, *ssa.RunDefers:
 	case *ssa.Defer, *ssa.Go:
 	case *ssa.Alloc:
-		fr.env[x] = vPtr{Obj: e.id()}
+		obj := e.id()
+		if pt, ok := x.Type().Underlying().(*types.Pointer); ok {
+			e.nameByType(obj, pt.Elem())
+		}
+		fr.env[x] = vPtr{Obj: obj}
 		// zero value: array/ints are zero; left unknown (fresh on load) except arrays keep their length by type
 	case *ssa.FieldAddr:
 		base := e.val(fr, st, x.X)
@@ -2645,4 +2658,20 @@ var lfContractPure = map[string]bool{
 	"(crypto/cipher.Block).BlockSize": true, "crypto/cipher.NewCBCDecrypter": true, "crypto/cipher.NewCBCEncrypter": true,
 	"(crypto/cipher.BlockMode).CryptBlocks":       true,
 	"github.com/gebn/bmc/internal/pkg/bcd.Decode": true,
+}
+
+
+// nameByType: in bits mode with typeNames set, a newly created object of a listed struct
+// type is tracked under that type's prefix (so that the fields of "the RAKP Message 1" have
+// one name whether the object is a parameter, a local, or came back from a call).
+func (e *lfEngine) nameByType(obj int, t types.Type) {
+	if e.typeNames == nil {
+		return
+	}
+	if pfx, ok := e.typeNames[types.TypeString(t, nil)]; ok {
+		if e.tracked == nil {
+			e.tracked = map[int]string{}
+		}
+		e.tracked[obj] = pfx
+	}
 }
